@@ -26,6 +26,8 @@ def canon(obj, depth=0, seen=None):
         return "<deep>"
     if obj is None or isinstance(obj, (bool, int, float, str, bytes)):
         return repr(obj)
+    if isinstance(obj, Poison):
+        return "<stale-unread>"
     oid = id(obj)
     if oid in seen:
         return "<cycle>"
@@ -53,8 +55,67 @@ def digest(obj):
     return hashlib.sha1(canon(obj).encode()).hexdigest()[:16]
 
 
+EVENTS = []        # ordered first events of the current run: (kind, registry id, canonical key)
+_SEEN = set()
+
+
+def ev(kind, td, key=None):
+    """kind: reset | w (write key) | rk (read key) | ra (read whole container / its order / its size)"""
+    rid = getattr(td, "t_rid", None)
+    if rid is None:
+        return
+    try:
+        k = None if key is None else canon(key)
+    except Exception:
+        k = "?"
+    e = (kind, rid, k)
+    if e not in _SEEN:
+        _SEEN.add(e)
+        EVENTS.append(e)
+
+
+def new_run():
+    del EVENTS[:]
+    _SEEN.clear()
+
+
 class TraceDict(dict):
     """dict that records keys read before being written since the last `epoch()`."""
+    t_rid = None
+
+    def __contains__(self, key):
+        ev("rk", self, key)
+        return dict.__contains__(self, key)
+
+    def __iter__(self):
+        ev("ra", self)
+        return dict.__iter__(self)
+
+    def keys(self):
+        ev("ra", self)
+        return dict.keys(self)
+
+    def __len__(self):
+        ev("ra", self)
+        return dict.__len__(self)
+
+    def copy(self):
+        ev("ra", self)
+        return dict.copy(self)
+
+    def __delitem__(self, key):
+        ev("rk", self, key)
+        ev("w", self, key)
+        dict.__delitem__(self, key)
+
+    def pop(self, key, *a):
+        ev("rk", self, key)
+        ev("w", self, key)
+        return dict.pop(self, key, *a)
+
+    def popitem(self):
+        ev("ra", self)
+        return dict.popitem(self)
 
     def _init(self):
         self.t_written = set()
@@ -71,47 +132,57 @@ class TraceDict(dict):
                 self.t_read_first[key] = "?"
 
     def __getitem__(self, key):
+        ev("rk", self, key)
         self._note_read(key)
         return dict.__getitem__(self, key)
 
     def get(self, key, default=None):
+        ev("rk", self, key)
         self._note_read(key)
         return dict.get(self, key, default)
 
     def __setitem__(self, key, value):
+        ev("w", self, key)
         self.t_written.add(key)
         dict.__setitem__(self, key, value)
 
     def setdefault(self, key, default=None):
+        ev("rk", self, key)
         if dict.__contains__(self, key):
             self._note_read(key)
         else:
+            ev("w", self, key)
             self.t_written.add(key)
         return dict.setdefault(self, key, default)
 
     def update(self, *a, **kw):
         other = dict(*a, **kw)
         for k in other:
+            ev("w", self, k)
             self.t_written.add(k)
         dict.update(self, other)
 
     def items(self):
+        ev("ra", self)
         for k in list(dict.keys(self)):
             self._note_read(k)
         return dict.items(self)
 
     def values(self):
+        ev("ra", self)
         for k in list(dict.keys(self)):
             self._note_read(k)
         return dict.values(self)
 
     def clear(self):
+        ev("reset", self)
         dict.clear(self)
         self.t_written = set()
 
 
 class TraceList(list):
     """list that records whether it was accessed at all since the last `epoch()`."""
+    t_rid = None
 
     def _init(self):
         self.t_accessed = False
@@ -120,29 +191,169 @@ class TraceList(list):
         self.t_accessed = False
 
     def __iter__(self):
+        ev("ra", self)
         self.t_accessed = True
         return list.__iter__(self)
 
     def __getitem__(self, i):
+        ev("ra", self)
         self.t_accessed = True
         return list.__getitem__(self, i)
 
     def __len__(self):
+        ev("ra", self)
         self.t_accessed = True
         return list.__len__(self)
 
     def __contains__(self, x):
+        ev("ra", self)
         self.t_accessed = True
         return list.__contains__(self, x)
 
+    # a list keeps order: every in-place change both reads (position depends on what is there) and writes
+    def _rw(self):
+        ev("ra", self)
+        ev("w", self, "<list>")
+
+    def append(self, x):
+        self._rw()
+        list.append(self, x)
+
+    def extend(self, x):
+        self._rw()
+        list.extend(self, x)
+
+    def insert(self, i, x):
+        self._rw()
+        list.insert(self, i, x)
+
+    def __setitem__(self, i, x):
+        self._rw()
+        list.__setitem__(self, i, x)
+
+    def __delitem__(self, i):
+        self._rw()
+        list.__delitem__(self, i)
+
+    def pop(self, *a):
+        self._rw()
+        return list.pop(self, *a)
+
+    def remove(self, x):
+        self._rw()
+        list.remove(self, x)
+
+    def sort(self, *a, **kw):
+        self._rw()
+        list.sort(self, *a, **kw)
+
+    def reverse(self):
+        self._rw()
+        list.reverse(self)
+
+    def clear(self):
+        ev("reset", self)
+        list.clear(self)
+
+
+IMMUTABLE_TYPES = (type(None), bool, int, float, complex, str, bytes, frozenset, types.FunctionType, types.BuiltinFunctionType,
+                   types.ModuleType, type, property, staticmethod, classmethod, types.MethodDescriptorType,
+                   types.GetSetDescriptorType, types.MemberDescriptorType, types.WrapperDescriptorType, type(len),
+                   type(__import__("re").compile("")), type(__import__("operator").itemgetter(0)),
+                   type(collections.namedtuple("_nt", "a").a), type(__import__("__future__").print_function))
+
+
+class Unclassifiable(Exception):
+    pass
+
+
+class PoisonRead(Exception):
+    pass
+
+
+class Poison(object):
+    """stands in, at the start of a run, for a module-level object an EARLIER run bound through `global`: the run may
+    rebind the name (a reset) or leave it alone, but any use of the stale object raises"""
+
+    def __init__(self, rid):
+        object.__setattr__(self, "_rid", rid)
+
+    def _boom(self, *a, **kw):
+        raise PoisonRead("stale object of an earlier run used: " + object.__getattribute__(self, "_rid"))
+
+    def __getattr__(self, name):
+        if name.startswith("__") and name.endswith("__"):
+            raise AttributeError(name)
+        self._boom()
+    __getitem__ = __iter__ = __len__ = __bool__ = __call__ = __contains__ = __setattr__ = _boom
+
+
+REBOUND_OBJS = {}     # rid -> (module, name, import-time value) for non-container names rebound through `global`
+
+
+def deep_immutable(v, depth=0):
+    if isinstance(v, IMMUTABLE_TYPES):
+        return True
+    if isinstance(v, tuple) and depth < 6:
+        return all(deep_immutable(x, depth + 1) for x in v)
+    return False
+
+
+def global_rebinds():
+    """AST scan: {module: {function qualname: [names declared global]}} for every function of shroud.* with a
+    `global` statement - the only way module-level names are rebound at run time"""
+    import ast
+    import os
+    import shroud
+    res = {}
+    d = os.path.dirname(shroud.__file__)
+    for f in sorted(os.listdir(d)):
+        if not f.endswith(".py"):
+            continue
+        tree = ast.parse(open(os.path.join(d, f)).read())
+
+        def walk(node, qual):
+            for ch in ast.iter_child_nodes(node):
+                if isinstance(ch, (ast.FunctionDef, ast.ClassDef)):
+                    q = qual + [ch.name]
+                    if isinstance(ch, ast.FunctionDef):
+                        names = [n for g in ast.walk(ch) if isinstance(g, ast.Global) for n in g.names]
+                        if names:
+                            res.setdefault(f[:-3], {})[".".join(q)] = sorted(set(names))
+                    walk(ch, q)
+                else:
+                    walk(ch, qual)
+        walk(tree, [])
+    return res
+
+
+def kind_of(val):
+    if isinstance(val, collections.OrderedDict):
+        return "OrderedDict"
+    if isinstance(val, dict):
+        return "dict"
+    if isinstance(val, list):
+        return "list"
+    if isinstance(val, set):
+        return "set"
+    if type(val).__name__ == "Scope":
+        return "Scope"
+    if isinstance(val, tuple):
+        return "tuple"          # a tuple holding mutable values (e.g. Typemap._order default lists)
+    return "object"
+
 
 def enumerate_registries():
+    """every module-level and class-level attribute of shroud.* that is not deeply immutable, plus every name some
+    function rebinds through `global`.  Anything whose kind cannot be determined raises (no silent skipping)."""
     import shroud
     regs = {}
+    rebinds = global_rebinds()
     for m in pkgutil.iter_modules(shroud.__path__):
         if m.name in ("__main__",):
             continue
         mod = importlib.import_module("shroud." + m.name)
+        rebound = {n for names in rebinds.get(m.name, {}).values() for n in names}
         for name, val in list(vars(mod).items()):
             if name.startswith("__"):
                 continue
@@ -150,11 +361,117 @@ def enumerate_registries():
                 regs["%s.%s" % (m.name, name)] = (mod, name, None)
             elif isinstance(val, type) and val.__module__ == mod.__name__:
                 for an, av in list(vars(val).items()):
-                    if not an.startswith("__") and isinstance(av, MUTABLE):
+                    if an.startswith("__"):
+                        continue
+                    if isinstance(av, MUTABLE):
                         regs["%s.%s.%s" % (m.name, name, an)] = (val, an, None)
+                    elif not deep_immutable(av):
+                        if type(av).__module__.startswith("shroud") or hasattr(av, "__dict__") or isinstance(av, tuple):
+                            regs["%s.%s.%s" % (m.name, name, an)] = (val, an, None)
+                        else:
+                            raise Unclassifiable("class attribute %s.%s.%s of type %s" % (m.name, name, an, type(av).__name__))
             elif type(val).__name__ == "Scope" and type(val).__module__ == "shroud.util":
                 regs["%s.%s" % (m.name, name)] = (mod, name, None)
+            elif name in rebound:
+                regs["%s.%s" % (m.name, name)] = (mod, name, None)        # rebound by a `global` statement
+                REBOUND_OBJS["%s.%s" % (m.name, name)] = (mod, name, val)
+            elif isinstance(val, type) or deep_immutable(val):
+                continue
+            elif type(val).__module__.startswith("shroud") or hasattr(val, "__dict__") or isinstance(val, tuple):
+                regs["%s.%s" % (m.name, name)] = (mod, name, None)        # module-level instance with attributes
+            else:
+                raise Unclassifiable("module attribute %s.%s of type %s" % (m.name, name, type(val).__name__))
+        for fn, names in rebinds.get(m.name, {}).items():
+            for n in names:
+                if not hasattr(mod, n):
+                    raise Unclassifiable("%s.%s declares `global %s` but the module has no such name at import" % (m.name, fn, n))
     return regs
+
+
+def _resolve(mod, qual):
+    owner, obj = None, mod
+    for part in qual.split("."):
+        owner, obj = obj, getattr(obj, part)
+    return owner, qual.split(".")[-1], obj
+
+
+def install_sites(regs, traced):
+    """wrap the functions that reset a registry as a whole, so the trace shows a `reset` stage where the code has one:
+      * functions with a `global` statement: a rebound name is a reset (new value re-wrapped for tracing)
+      * statements.update_for_language(stmts, lang): history independent for every history (Props/C07 update_table_pure)
+      * statements.update_stmt_tree(stmts, tree, defaults): rewrites every path of `tree` from `stmts`
+      * whelpers.set_library: prunes CHelpers / FHelpers to their import-time key set"""
+    import functools
+    from shroud import statements, whelpers
+
+    def rid_of(obj):
+        for rid, (o, a, _) in regs.items():
+            if getattr(o, a, None) is obj:
+                return rid
+        return None
+
+    class _R(object):
+        def __init__(self, rid):
+            self.t_rid = rid
+
+    def wrap(owner, attr, fn, before=None, after=None):
+        @functools.wraps(fn)
+        def w(*a, **kw):
+            tok = before(*a, **kw) if before else None
+            try:
+                return fn(*a, **kw)
+            finally:
+                if after:
+                    after(tok)
+        setattr(owner, attr, w)
+
+    for mname, fns in global_rebinds().items():
+        mod = importlib.import_module("shroud." + mname)
+        for qual, names in fns.items():
+            owner, attr, fn = _resolve(mod, qual)
+            if not isinstance(fn, types.FunctionType):
+                continue
+
+            def before(*a, _mod=mod, _names=names, **kw):
+                return [(n, id(getattr(_mod, n, None))) for n in _names]
+
+            def after(tok, _mod=mod, _mname=mname):
+                for n, old in tok:
+                    cur = getattr(_mod, n, None)
+                    if id(cur) != old:
+                        rid = "%s.%s" % (_mname, n)
+                        ev("reset", _R(rid))
+                        if type(cur) is dict:
+                            td = TraceDict(cur); td._init(); td.t_rid = rid
+                            setattr(_mod, n, td); traced[rid] = td
+                        elif type(cur) is list:
+                            tl = TraceList(cur); tl._init(); tl.t_rid = rid
+                            setattr(_mod, n, tl); traced[rid] = tl
+            wrap(owner, attr, fn, before, after)
+
+    def b_ufl(stmts, lang, *a, **kw):
+        rid = rid_of(stmts)
+        if rid:
+            ev("reset", _R(rid))
+    wrap(statements, "update_for_language", statements.update_for_language, b_ufl)
+
+    def b_ust(stmts, tree, defaults, *a, **kw):
+        rid = rid_of(tree)
+        if rid:
+            ev("reset", _R(rid))
+    wrap(statements, "update_stmt_tree", statements.update_stmt_tree, b_ust)
+
+    static = {"whelpers.CHelpers": digest({k: dict.__getitem__(whelpers.CHelpers, k) for k in whelpers._static_chelpers}),
+              "whelpers.FHelpers": digest({k: dict.__getitem__(whelpers.FHelpers, k) for k in whelpers._static_fhelpers})}
+
+    def b_sl(*a, **kw):
+        # the prune leaves exactly the import-time keys: a reset, provided their values are still the import-time ones
+        for rid, keys, tab in (("whelpers.CHelpers", whelpers._static_chelpers, whelpers.CHelpers),
+                               ("whelpers.FHelpers", whelpers._static_fhelpers, whelpers.FHelpers)):
+            if digest({k: dict.__getitem__(tab, k) for k in keys if dict.__contains__(tab, k)}) == static[rid]:
+                ev("reset", _R(rid))
+    if hasattr(whelpers, "set_library") and hasattr(whelpers, "_static_chelpers"):
+        wrap(whelpers, "set_library", whelpers.set_library, b_sl)
 
 
 def main():
@@ -166,24 +483,37 @@ def main():
         if type(val) is dict:
             td = TraceDict(val)
             td._init()
+            td.t_rid = rid
             setattr(owner, attr, td)
             traced[rid] = td
         elif type(val) is list:
             tl = TraceList(val)
             tl._init()
+            tl.t_rid = rid
             setattr(owner, attr, tl)
             traced[rid] = tl
+    install_sites(regs, traced)
+    kinds = {rid: kind_of(getattr(o, a, None)) for rid, (o, a, _) in regs.items()}
     initial = {rid: digest(getattr(o, a)) for rid, (o, a, _) in regs.items()}
-    out = {"registries": sorted(regs), "initial": initial, "runs": []}
+    out = {"registries": sorted(regs), "initial": initial, "kinds": kinds, "runs": []}
     for item in spec["seq"]:
         for td in traced.values():
             td.epoch()
+        new_run()
+        for rid, (mod, name, init) in REBOUND_OBJS.items():
+            if getattr(mod, name, None) is not init:
+                setattr(mod, name, Poison(rid))
         # registries may be rebound by the run (e.g. `global x; x = {}`): re-resolve afterwards
         if "corpus" in item:
             cfg, exc, _ = shroudrun.run_corpus_inproc(item["corpus"], item["outdir"], item.get("options", ()))
         else:
             cfg, exc, _ = shroudrun.run_inproc([item["yaml"]], item["outdir"], options=item.get("options", ()),
                                                language=item.get("language"), path=item.get("path"))
+        events = [list(e) for e in EVENTS]
+        unread = []
+        for rid, (mod, name, init) in REBOUND_OBJS.items():
+            if isinstance(getattr(mod, name, None), Poison):
+                unread.append(rid)
         snap, reads, rebound = {}, {}, []
         for rid, (o, a, _) in regs.items():
             cur = getattr(o, a, None)
@@ -197,7 +527,7 @@ def main():
                 else:
                     reads[rid] = {canon(k): v for k, v in traced[rid].t_read_first.items()}
         out["runs"].append({"exc": None if exc is None else "%s: %s" % (type(exc).__name__, exc),
-                            "snap": snap, "reads": reads, "rebound": rebound})
+                            "snap": snap, "reads": reads, "rebound": rebound, "events": events, "unread_stale": unread})
     print(json.dumps(out))
 
 
